@@ -184,8 +184,7 @@ AdvStep(t, s) ==
             LET dep == Dep(f.v, f.i) IN
             IF f.n # 0 THEN [s EXCEPT !.fs = Return(fs, 0)]
             ELSE IF f.d = dep.t
-                 THEN LET e == CheckEst(s, f.v, f.i)
-                      IN [s EXCEPT !.sh.est[<<f.v, f.i>>] = e, !.sh.rdy[<<f.v, f.i>>] = e, !.fs = Goto(fs, "d_vsub")]
+                 THEN [s EXCEPT !.fs = Goto(fs, "d_chk2")]
                  ELSE IF s.sh.est[<<f.v, f.i>>] THEN [s EXCEPT !.fs = Goto(fs, "d_tload")]
                       ELSE [s EXCEPT !.sh.rdy[<<f.v, f.i>>] = FALSE, !.fs = Goto(fs, "d_vsub")]
        \* ---- GraphData::recursive_activate / GraphVertex::activate / GraphDependency::activate
@@ -304,12 +303,7 @@ AStep(t, M(_)) ==
              LAMBDA old, s :
                LET n == old - 1
                    g == [f EXCEPT !.n = n]
-               IN IF f.d = dep.c
-                  THEN LET e == CheckEst(s, f.v, f.i)
-                           s1 == [s EXCEPT !.sh.est[<<f.v, f.i>>] = e]
-                       IN IF e THEN WithFs(s1, SetTop(fs, [g EXCEPT !.pc = IF n = 1 THEN "d_xchg" ELSE "d_fin"]))
-                          ELSE WithFs(s1, SetTop(fs, [g EXCEPT !.pc = IF n # 0 THEN "d_sub2" ELSE "d_fin"]))
-                  ELSE WithFs(s, SetTop(fs, [g EXCEPT !.pc = "d_fin"])))
+               IN WithFs(s, SetTop(fs, [g EXCEPT !.pc = IF f.d = dep.c THEN "d_chk" ELSE "d_fin"])))
     [] f.pc = "d_sub2" ->
          Faa(t, L("dwn", f.v, f.i), -1, "dep_unmet_sub", M,
              LAMBDA old, s : WithFs(s, SetTop(fs, [f EXCEPT !.n = old - 1, !.pc = "d_fin"])))
@@ -344,10 +338,7 @@ AStep(t, M(_)) ==
                LET n == old + k
                    nxt(g) == SetTop(fs, [g EXCEPT !.pc = "a_next"])
                IN CASE n = -1 -> WithFs(s, nxt([f EXCEPT !.n = f.n + 1]))
-                    [] n = 0 -> LET e == CheckEst(s, f.v, f.i)
-                                    s1 == [s EXCEPT !.sh.est[<<f.v, f.i>>] = e]
-                                IN IF e THEN WithFs(s1, Goto(fs, "da_xchg0"))
-                                   ELSE WithFs(s1, nxt([f EXCEPT !.n = f.n + 1]))
+                    [] n = 0 -> WithFs(s, Goto(fs, "da_chk0"))
                     [] n = 1 -> IF dep.c = 0 THEN [s EXCEPT !.sh.est[<<f.v, f.i>>] = TRUE, !.fs = Goto(fs, "da_xchg1")]
                                 ELSE WithFs(s, Goto(fs, "da_cload"))
                     [] n = 2 -> WithFs(s, SetTop(fs, [f EXCEPT !.pc = "a_trig", !.td = dep.c, !.ret = "a_next"]))
@@ -365,9 +356,7 @@ AStep(t, M(_)) ==
          Load(t, L("dclo", dep.c, 0), "dep_activate_condition_load", M,
               LAMBDA old, s :
                 IF old # SEALED THEN WithFs(s, SetTop(fs, [f EXCEPT !.pc = "a_trig", !.td = dep.c, !.ret = "a_next"]))
-                ELSE LET e == CheckEst(s, f.v, f.i)
-                         s1 == [s EXCEPT !.sh.est[<<f.v, f.i>>] = e]
-                     IN IF e THEN WithFs(s1, Goto(fs, "da_xchg1")) ELSE WithFs(s1, Goto(fs, "a_next")))
+                ELSE WithFs(s, Goto(fs, "da_chk1")))
     [] f.pc = "v_fsub" ->
          Faa(t, L("vwn", f.v, 0), -f.n, "vertex_finished_sub", M,
              LAMBDA old, s : LET s1 == WithFs(s, Goto(fs, "a_loop"))
@@ -415,6 +404,32 @@ AStep(t, M(_)) ==
          Faa(t, L("wvn", 0, 0), -1, "closure_vertex_sub", M,
              LAMBDA old, s : IF old - 1 = 0 THEN WithFs(s, Call(fs, "m_flush", MarkFrame(-1)))
                              ELSE WithFs(s, Goto(fs, "m_get")))
+
+(***************************************************************************)
+(* GraphDependency::check_established(): reads the condition's value and   *)
+(* sets _established -- plain accesses, but a step of its own: between the *)
+(* decrement of _waiting_num and this evaluation other threads move (the   *)
+(* driver makes the entry of check_established a schedule point, event     *)
+(* "pt").  The thread that takes the counter to its terminal value may     *)
+(* therefore not rely on another thread's _established being written yet.  *)
+(***************************************************************************)
+ChkPCs == {"d_chk", "d_chk2", "da_chk0", "da_chk1"}
+PtStep(t) ==
+  /\ st[t] # <<>> /\ Top(st[t]).pc \in ChkPCs
+  /\ LET fs == st[t]
+         f == Top(fs)
+         s == S0(t)
+         e == CheckEst(s, f.v, f.i)
+         s1 == [s EXCEPT !.sh.est[<<f.v, f.i>>] = e]
+         s2 == CASE f.pc = "d_chk" ->      \* ready(): the condition was delivered
+                      WithFs(s1, Goto(fs, IF e THEN (IF f.n = 1 THEN "d_xchg" ELSE "d_fin") ELSE (IF f.n # 0 THEN "d_sub2" ELSE "d_fin")))
+                 [] f.pc = "d_chk2" ->     \* ready(): the target completed the dependency: _ready = check_established()
+                      [s1 EXCEPT !.sh.rdy[<<f.v, f.i>>] = e, !.fs = Goto(fs, "d_vsub")]
+                 [] f.pc = "da_chk0" ->    \* activate(): everything was delivered before
+                      IF e THEN WithFs(s1, Goto(fs, "da_xchg0")) ELSE WithFs(s1, SetTop(fs, [f EXCEPT !.pc = "a_next", !.n = f.n + 1]))
+                 [] f.pc = "da_chk1" ->    \* activate(): the condition is ready, the target is not
+                      IF e THEN WithFs(s1, Goto(fs, "da_xchg1")) ELSE WithFs(s1, Goto(fs, "a_next"))
+     IN Commit(t, mem, s2, [NoEv EXCEPT !.t = t, !.k = "pt"])
 
 AtomicPCs == {"e_acq", "r_load", "r_cas", "r_dsub", "d_sub1", "d_sub2", "d_xchg", "d_tload", "d_vsub", "t_load", "v_cas", "v_store",
               "da_faa", "da_xchg0", "da_tload0", "da_xchg1", "da_cload", "v_fsub", "i_vadd", "x_fload", "fl_load", "dn_vsub",
@@ -513,7 +528,7 @@ Take(t, M(_)) ==
 
 Step(t, M(_)) ==
   \/ (st[t] # <<>> /\ Top(st[t]).pc \in AtomicPCs /\ AStep(t, M))
-  \/ MRun(t) \/ PBegin(t) \/ PEnd(t) \/ MGet(t) \/ MWait(t) \/ MReset(t) \/ Take(t, M)
+  \/ PtStep(t) \/ MRun(t) \/ PBegin(t) \/ PEnd(t) \/ MGet(t) \/ MWait(t) \/ MReset(t) \/ Take(t, M)
 
 AllDone == st[0] # <<>> /\ Top(st[0]).pc = "m_done"
 
